@@ -110,13 +110,16 @@ MapShape(m, shape) ==
 PrevIdx(P, i) == IF i = 1 THEN Len(P) ELSE i - 1
 \* u . v > 0 for collinear u, v: same direction
 SDotPos(u, v) == (Sign(u[1]) * Sign(v[1]) > 0) \/ (Sign(u[2]) * Sign(v[2]) > 0)
+RECURSIVE KeepSeq(_, _, _)
+KeepSeq(r, keep, i) == IF i > Len(r) THEN <<>>
+                       ELSE (IF i \in keep THEN <<r[i]>> ELSE <<>>) \o KeepSeq(r, keep, i + 1)
 SimplifyRing(r) ==
     IF Len(r) < 3 THEN r
     ELSE LET keep == {i \in DOMAIN r :
                         ~(SCross3(r[PrevIdx(r, i)], r[i], r[NextIdx(r, i)]) = 0
                           /\ SDotPos(VSub(r[i], r[PrevIdx(r, i)]), VSub(r[NextIdx(r, i)], r[i])))}
          IN  IF keep = {} THEN r
-             ELSE LET idx == SortSeq(SetToSeqH(keep), LAMBDA a, b : a < b) IN [k \in DOMAIN idx |-> r[idx[k]]]
+             ELSE KeepSeq(r, keep, 1)
 CanonParts(parts) == [i \in DOMAIN parts |-> [tag |-> parts[i].tag, ring |-> Canon(SimplifyRing(parts[i].ring))]]
 \* two part lists denote the same geometry: equal as bags of (tag, ring up to rotation/orientation)
 SameGeometry(a, b) == BagEq(CanonParts(a), CanonParts(b))
